@@ -25,7 +25,8 @@ def server(lsock, stop):
         req += tls.recv(4096)
     key = [l.split(b":", 1)[1].strip() for l in req.split(b"\r\n") if l.lower().startswith(b"sec-websocket-key")][0]
     acc = base64.b64encode(hashlib.sha1(key + GUID).digest())
-    tls.sendall(b"HTTP/1.1 101 Switching Protocols\r\nUpgrade: websocket\r\nConnection: Upgrade\r\nSec-WebSocket-Accept: " + acc + b"\r\n\r\n")
+    # ONE record: the handshake response and a first message
+    tls.sendall(b"HTTP/1.1 101 Switching Protocols\r\nUpgrade: websocket\r\nConnection: Upgrade\r\nSec-WebSocket-Accept: " + acc + b"\r\n\r\n" + frame(1, b"hello"))
     time.sleep(0.3)
     # ONE record: a text frame followed by a pong
     tls.sendall(frame(1, b"status") + frame(10, b"late?"))
@@ -91,6 +92,11 @@ msg = [e for e in ev if e[1] == "message"]
 pong = [e for e in ev if e[1] == "pong"]
 if not msg or not pong:
     print("FAIL: events missing")
+    sys.exit(1)
+hello = [e for e in ev if e[1] == "message" and e[2] == "hello"]
+msg = [e for e in ev if e[1] == "message" and e[2] == "status"]
+if not hello or not msg or hello[0][0] > 0.25:
+    print(f"FAIL: the message that arrived in the TLS record of the handshake response was delivered at t={hello[0][0] if hello else None} (only when later traffic made the socket readable)")
     sys.exit(1)
 if pong[0][0] - msg[0][0] > 0.5:
     print(f"FAIL: the pong arrived in the same TLS record as the message but was delivered {pong[0][0] - msg[0][0]:.2f}s later (only when the close frame made the socket readable)")
